@@ -19,12 +19,12 @@ VERDICT_PREFIX = {"C04": "C04_", "C12": "C12_"}
 
 
 def tlc_here(sc, module, **kw):
-    """TLC with its JVM temp dir inside the scratch dir (TLC leaves a tlc-* directory in java.io.tmpdir on every run) and a
-    bounded heap (the largest configuration needs < 2 GB; the default of 25 % of RAM invites the OOM killer when several
-    checks run side by side)"""
+    """TLC with its JVM temp dir inside the scratch dir (TLC leaves a tlc-* directory in java.io.tmpdir on every run).
+    Heap: the wrapper's default (25 % of RAM); measured: the 25 M-state history configuration takes 101 s with it and 208 s
+    with -Xmx8g.  A TLC killed by the OOM killer (several checks side by side) surfaces as Inconclusive, never as a verdict."""
     jt = os.path.join(sc, "jtmp")
     os.makedirs(jt, exist_ok=True)
-    return tlc(sc, module, javaopts="-Xmx8g -Djava.io.tmpdir=" + jt, **kw)
+    return tlc(sc, module, javaopts="-Djava.io.tmpdir=" + jt, **kw)
 
 
 # ------------------------------------------------------------------------------------------------ U1 design checks
